@@ -67,22 +67,5 @@ Theorem suffixes_ok :
   suffixes_fasta = [[46; 102; 97; 115; 116; 97]; [46; 102; 97]; [46; 102; 110; 97]].    (* .fasta .fa .fna *)
 Proof. split; reflexivity. Qed.
 
-(* ---- inventory of unsafe constructs: exactly the sites that are hooked (H1, H3) or modelled (C13, C14) ---- *)
-Definition expected_unsafe_inventory : list (list N * (N * N * N * N)) :=
-  [ (Show.str "composition/src/oligo.rs"%string, (3, 2, 0, 0));      (* pos_map / vec indexing (hooked), two write_at calls *)
-    (Show.str "composition/src/oligocgr.rs"%string, (1, 2, 0, 0));   (* pos_map / vec indexing (hooked) *)
-    (Show.str "counter/src/lib.rs"%string, (1, 1, 0, 0));            (* partition table indexing (hooked) *)
-    (Show.str "coverage/src/lib.rs"%string, (1, 1, 0, 0));           (* histogram indexing (hooked) *)
-    (Show.str "ktio/src/mmap.rs"%string, (5, 0, 1, 1));              (* MMWriter::write_at (hooked), map_mut, file.set_len *)
-    (Show.str "pybindings/src/kmer.rs"%string, (1, 0, 0, 2));        (* lifetime extension kept alive by an Arc (C13, partial) *)
-    (Show.str "pybindings/src/min.rs"%string, (1, 0, 0, 2));
-    (Show.str "pybindings/src/oligo.rs"%string, (1, 2, 0, 0)) ].     (* copy of the oligo loop (C13) *)
-Fixpoint inv_eqb (a b : list (list N * (N * N * N * N))) : bool :=
-  match a, b with
-  | [], [] => true
-  | (f, (p, q, r, s)) :: a', (f', (p', q', r', s')) :: b' =>
-      Show.list_eqb f f' && (p =? p') && (q =? q') && (r =? r') && (s =? s') && inv_eqb a' b'
-  | _, _ => false
-  end.
-Theorem unsafe_inventory_ok : inv_eqb unsafe_inventory expected_unsafe_inventory = true.
-Proof. vm_compute. reflexivity. Qed.
+(* the inventory of unsafe constructs is checked in Gen/UnsafeFacts.v (core crates, C14) and Gen/UnsafePyFacts.v
+   (bindings, C13), so that a new unsafe site is an obligation of those properties only *)
